@@ -139,6 +139,9 @@ structure Act where
 
 instance : Inhabited Act := ⟨⟨id, [], none⟩⟩
 
+/-- the model's record of an activated term that has an implication operator (the default is never used) -/
+def Act.model (a : Act) : Activated Rat := ⟨a.mu, a.degrees, a.impl.getD (fun _ _ => X.nan)⟩
+
 /-- `np.atleast_2d(self.degree).T`: the column of the stored degrees; the setter of `Activated.degree` stores
     `np.nan_to_num(value, nan=0.0, neginf=0.0, posinf=1.0)` -/
 def degreeColumn (degrees : List (X Rat)) : Mat := degrees.map (fun d => [X.nanToNum01 d])
